@@ -236,7 +236,7 @@ def run(ctx, prog):
                                 if srcs and all(is_mapped(par, f_, v_, pof, pov) for f_, v_ in zip(srcs_f, srcs)):
                                     ok = True
                                     why = 'iterates a collection of mapped ids in the parent'
-                        idx = sum(1 for x in ctx.instances if x['rule'] == 'C10.R2' and x['key'].startswith('C10.R2 | rpc %s | %s' % (h, flow.short(c.callee))))
+                        idx = sum(1 for x in ctx.instances if x.get('config') == ctx.config and x['rule'] == 'C10.R2' and x['key'].startswith('C10.R2 | rpc %s | %s' % (h, flow.short(c.callee))))
                         ctx.inst('C10.R2', 'rpc ' + h, '%s #%d gets a mapped id' % (flow.short(c.callee), idx), ok,
                                  '%s at %s: id argument %s [%s]' % (flow.short(c.callee), c.loc, ev[:90], why if ok else 'NOT derived from map_doc_id'))
     ctx.floor('C10.R2', 'engine id sinks in tenant-scoped handlers', n_sink, 14, 'measured on the pinned tree')
@@ -259,7 +259,7 @@ def run(ctx, prog):
                     r = flow.render(of.of_operand(rv['ops'][rv['fields'].index('doc_id')]))
                     alts = flow.top_alternatives(of.of_operand(rv['ops'][rv['fields'].index('doc_id')]))
                     ok = all(bool(re.search(r'unmap_doc_id\(|Request\.doc_id|Request\.doc_ids|QueryRequest\.doc_id', flow.render(a))) for a in alts)
-                    idx = sum(1 for x in ctx.instances if x['rule'] == 'C10.R2' and x['key'].startswith('C10.R2 | %s | response' % b.short.split('::{')[0]))
+                    idx = sum(1 for x in ctx.instances if x.get('config') == ctx.config and x['rule'] == 'C10.R2' and x['key'].startswith('C10.R2 | %s | response' % b.short.split('::{')[0]))
                     ctx.inst('C10.R2', b.short.split('::{')[0], 'response doc_id #%d is the request id or an unmapped id' % idx, ok, 'doc_id = %s' % r[:140])
     ctx.floor('C10.R2', 'response aggregates carrying a doc_id', n_resp, 5, 'query ×4, bulk_query, search result')
     id_range_refusal(ctx, prog, 'C10.R2')
@@ -488,7 +488,7 @@ def run(ctx, prog):
                             ok = b.dominates(j, i) and i not in rr
                             why = ' (bulk_query idiom: the switch on `found` that guards sanitize dominates the response; its true edge always sanitises)'
                             ctx.exception('C10.R5', 'rpc bulk_query', 'metadata variable is sanitised on the `found` edge and cleared / defaulted on every ¬found path (C10.R3 checks the clears)')
-                    idx = sum(1 for x in ctx.instances if x['rule'] == 'C10.R5' and x['key'].startswith('C10.R5 | %s | ' % b.short.split('::{')[0]))
+                    idx = sum(1 for x in ctx.instances if x.get('config') == ctx.config and x['rule'] == 'C10.R5' and x['key'].startswith('C10.R5 | %s | ' % b.short.split('::{')[0]))
                     ctx.inst('C10.R5', b.short.split('::{')[0], 'response metadata #%d is sanitised or empty' % idx, ok, 'metadata = %s%s' % (r[:140], why))
     ctx.floor('C10.R5', 'response aggregates carrying metadata', n_md, 5, 'query ×4, bulk_query, search result')
 
@@ -586,7 +586,7 @@ def run(ctx, prog):
             n_w += 1
             meth = flow.short(c.callee).split('::')[-1]
             fn = b.short.split('::{')[0]
-            k8 = sum(1 for x in ctx.instances if x['rule'] == 'C10.R8' and x['key'].startswith('C10.R8 | %s | map.%s' % (fn, meth)))
+            k8 = sum(1 for x in ctx.instances if x.get('config') == ctx.config and x['rule'] == 'C10.R8' and x['key'].startswith('C10.R8 | %s | map.%s' % (fn, meth)))
             if meth == 'insert':
                 val = flow.render(of8.of_operand(c.args[2]))
                 fresh = bool(re.match(r'^<T as convert::TryInto<U>>::try_into\(HashMap::len\(%s\)\)@Continue→Continue\.0$' % re.escape(recv), val)) and 'RwLock::write(' in recv
@@ -614,7 +614,7 @@ def run(ctx, prog):
                 if rv and rv['k'] == 'agg' and rv.get('adt', '').endswith('TenantIdMapper') and 'map' in (rv.get('fields') or []):
                     mo = flow.render(of8.of_operand(rv['ops'][rv['fields'].index('map')]))
                     ok = bool(re.match(r'^RwLock::new\((de::from_slice\(fs::read\(arg:path\)@Continue→Continue\.0\)@Continue→Continue\.0|HashMap::(with_capacity|new)\(.*\))\)$', mo))
-                    k8 = sum(1 for x in ctx.instances if x['rule'] == 'C10.R8' and x['key'].startswith('C10.R8 | %s | mapper built' % b.short))
+                    k8 = sum(1 for x in ctx.instances if x.get('config') == ctx.config and x['rule'] == 'C10.R8' and x['key'].startswith('C10.R8 | %s | mapper built' % b.short))
                     ctx.inst('C10.R8', b.short, 'mapper built #%d from the persisted map as is, or from a map created empty here' % k8, ok, 'map = %s' % mo[:110])
     ctx.floor('C10.R8', 'write calls on the tenant map', n_w, 3, 'load_or_create insert, ensure_tenant insert + remove')
     writers = sorted(set(c.body.short.split('::{')[0] for c in prog.all_calls() if c.callee and re.search(r'RwLock<.*>::write$|RwLock::write$', flow.short(c.callee)) and c.args and
